@@ -231,5 +231,5 @@ def multiply_by_quantized_multiplier(x, scale, shift):
     shift = 31 - shift
     left_shift = shift if shift > 0 else 0
     right_shift = -shift if shift < 0 else 0
-    mul = saturating_rounding_mul32(x * (1 << left_shift), scale)
+    mul = saturating_rounding_mul32(int(x) * (1 << left_shift), scale)
     return rounding_divide_by_pot(mul, right_shift)
